@@ -272,6 +272,7 @@ pub fn eval<D: Dom>(c: &Case<D>, mode: Mode, o: &mut Out) -> Evaluated {
         let which = match mode {
             Mode::C01 => "s",
             Mode::C02 => if D::NAME == "str" { "wct" } else { "wc" },
+            Mode::C07 => if D::NAME == "str" { "wsctu" } else { "wsc" },
             Mode::C09 | Mode::C08 => "w",
             Mode::C17 | Mode::C05 => "",
             _ => if D::NAME == "str" { "wsct" } else { "wsc" },
@@ -282,6 +283,7 @@ pub fn eval<D: Dom>(c: &Case<D>, mode: Mode, o: &mut Out) -> Evaluated {
             if which.contains('s') { want.push("sound 1"); }
             if which.contains('c') { want.push("complete 1"); }
             if which.contains('t') { want.push("tight 1"); }
+            if which.contains('u') { want.push("slab 1 unamb 1 vdet 1 eroot 1 esc 1"); }
             o.case(
                 sexp::l(vec![sexp::a("cert"), sexp::a(D::NAME), sexp::a(which), b.dump.clone(), sexp::list(&c.pats, D::pat_s), sexp::list(&b.present, |x| sexp::b(*x))]).to_string(),
                 format!("({})", want.join(" ")),
